@@ -210,7 +210,14 @@ def solve_scipy(
     constraints_violated = False
     max_violation = 0.0
 
-    if result.success and scipy_constraints:
+    # SLSQP's "positive directional derivative" exit is accepted as optimal
+    # below, so that point must pass the same feasibility check
+    message_lower = str(result.message).lower()
+    accepted_point = result.success or (
+        "positive directional derivative" in message_lower
+    )
+
+    if accepted_point and scipy_constraints:
         for c in scipy_constraints:
             c_val = c["fun"](result.x)
             # Scaled tolerance based on constraint magnitude
@@ -225,6 +232,20 @@ def solve_scipy(
                 # Equality constraint violated (should be == 0)
                 violation = abs(c_val)
                 max_violation = max(max_violation, violation)
+                constraints_violated = True
+
+    # Declared variable bounds must hold as well (methods outside
+    # BOUNDS_METHODS never see them)
+    if accepted_point:
+        for i, (lb_i, ub_i) in enumerate(bounds):
+            x_i = float(result.x[i])
+            if np.isfinite(lb_i) and x_i < lb_i - (atol + rtol * max(1.0, abs(lb_i))):
+                max_violation = max(max_violation, lb_i - x_i)
+                constraints_violated = True
+            elif np.isfinite(ub_i) and x_i > ub_i + (
+                atol + rtol * max(1.0, abs(ub_i))
+            ):
+                max_violation = max(max_violation, x_i - ub_i)
                 constraints_violated = True
 
     # If SLSQP returned "optimal" but constraints are violated, retry with trust-constr
